@@ -334,7 +334,8 @@ def check_eca(ctx, ES, x, y, ts, taumax, lag, cid, relations=False,
         ctx.violation(f"event_coincidence_analysis:{opt}:{kind}-differs",
                       {**case, "lib": out, "ref": r, "outputs": bad}, cid)
         return out
-    if _SAMPLED["ECA"] < 2 and len(tx) > 3 and 0 < r[0] < 1:
+    if _SAMPLED["ECA"] < 2 and len(tx) > 3 and r[0] is not None \
+                and 0 < r[0] < 1:
         _SAMPLED["ECA"] += 1
         ctx.sample({"measure": "ECA", "tx": tx, "ty": ty, "deltaT": taumax,
                     "lag": lag, "lib": out, "ref": r})
